@@ -12,7 +12,7 @@
    Executable definitions only. *)
 From Coq Require Import ZArith NArith List Bool.
 Import ListNotations.
-From Verif Require Import Lib.Corr Gen.C05.
+From Verif Require Import Lib.Corr Lib.Proxy_Order Gen.C05.
 Open Scope Z_scope.
 
 Definition str := list N.
@@ -141,6 +141,35 @@ Definition pruned (d : option reason) : bool :=
 
 End Generic.
 
+(* ---- MatchersForLabelSets (pkg/store/tsdb_selector.go) ---- *)
+Fixpoint sinsert (x : str) (l : list str) : list str :=
+  match l with
+  | [] => [x]
+  | y :: r => match str_cmp x y with Gt => y :: sinsert x r | Eq => l | Lt => x :: l end
+  end.
+(* slices.Sorted(maps.Keys(set)) *)
+Definition sset (l : list str) : list str := fold_right sinsert [] l.
+Definition RE_EMPTY : str := [94; 36]%N.   (* reMatchEmpty = "^$" *)
+Definition sel_names (lsets : list labels) : list str := sset (concat (map (map fst) lsets)).
+Definition sel_count (n : str) (lsets : list labels) : nat := length (filter (fun l => lhas l n) lsets).
+Definition sel_alts (n : str) (lsets : list labels) : list str :=
+  sset (concat (map (fun l => match lfind l n with Some v => [v] | None => [] end) lsets)
+        ++ (if (sel_count n lsets <? length lsets)%nat then [RE_EMPTY] else [])).
+Fixpoint join_bar (l : list str) : str :=
+  match l with
+  | [] => []
+  | [x] => x
+  | x :: r => x ++ 124%N :: join_bar r
+  end.
+Definition selector_matchers (lsets : list labels) : list (str * str) :=
+  map (fun n => (n, join_bar (sel_alts n lsets))) (sel_names lsets).
+
+(* meaning of the generated pattern v1|...|vn (anchored) when no vi contains a regex
+   metacharacter other than the reMatchEmpty alternative *)
+Definition alt_sem (alts : list str) (x : str) : bool :=
+  existsb (fun a => if str_eqb a RE_EMPTY then is_empty_str x else str_eqb a x) alts.
+
+
 (* ---- concrete matcher: position in the request, name, truth table of the real
    Matcher.Matches over every string occurring in the case ---- *)
 Record matcher := MkM { mid : nat; mname : str; mtbl : list (str * bool) }.
@@ -160,7 +189,10 @@ Inductive case :=
          (* implementation observables *)
          (o_ext : option (list nat))     (* matchesExternalLabels(ms, sel): positions of the kept matchers *)
          (o_reasons : list Z)            (* storeMatches per store on the kept matchers *)
-         (o_kept : list nat) (o_lsets : list labels). (* matchingStores: indices of queried stores, label sets for extra matchers *)
+         (o_kept : list nat) (o_lsets : list labels) (* matchingStores: indices of queried stores, label sets for extra matchers *)
+(* MatchersForLabelSets(lsets): the generated (name, pattern) pairs sorted by name, and for probe
+   series the verdict of the real regex matchers: (series labels, per generated matcher accepted?) *)
+| CSelM (lsets : list labels) (o_ms : list (str * str)) (probes : list (labels * list bool)).
 
 Definition labels_eqb : labels -> labels -> bool := list_eqb (pair_eqb str_eqb str_eqb).
 
@@ -177,6 +209,10 @@ Definition corr_ok (c : case) : bool :=
               list_eqb Nat.eqb ks o_kept && list_eqb labels_eqb ls o_lsets)
       | _, _ => false
       end
+  | CSelM lsets o_ms probes =>
+      list_eqb (pair_eqb str_eqb str_eqb) (selector_matchers lsets) o_ms
+      (* the reading of the patterns used by the theorems agrees with the real regex matchers *)
+      && forallb (fun p => list_eqb Bool.eqb (map (fun n => alt_sem (sel_alts n lsets) (lget (fst p) n)) (sel_names lsets)) (snd p)) probes
   end.
 
 (* the property on the implementation's own decisions: a store that was not
@@ -193,4 +229,7 @@ Definition pred_ok (c : case) : bool :=
           forallb (fun pr => if (snd pr =? 1) || (snd pr =? 4) then no_series_selected (fst pr) else true)
                   (combine stores o_reasons)
       end
+  | CSelM lsets o_ms probes =>
+      (* the extra matchers sent for the kept label sets accept every series that carries one of them *)
+      forallb (fun p => negb (existsb (extends_b (fst p)) lsets) || forallb (fun b => b) (snd p)) probes
   end.
